@@ -241,9 +241,97 @@ def build_run(info):
                 cls=("cnfgen:", "pbgen:")[cls] + name, nontrivial=bool(argv), info=info)
 
 
+# ---------------------------------------------------------------- o_chain: -T chains after a formula sub-command
+def line_req(line):
+    parts = [len(line)]
+    for t in line:
+        parts += enc_str(t)
+    return req("cli_line", parts)
+
+
+def run_real_line(line):
+    msgmod._prefix = ""
+    old_in = sys.stdin
+    sys.stdin = io.StringIO("")
+    try:
+        with contextlib.redirect_stdout(io.StringIO()), contextlib.redirect_stderr(io.StringIO()):
+            try:
+                F = cli_cnfgen(["cnfgen", "-q"] + list(line), mode="formula")
+                return "OK ok " + common.fmt_cnf(F)
+            except CLIError:
+                return "OK cliError"
+            except InternalBug:
+                return "OK internalBug"
+            except SystemExit as e:
+                return "EXIT {}".format(e.code)
+            except BaseException as e:  # noqa: the kind of exception is the observation
+                return "OK escaped:" + type(e).__name__
+    finally:
+        sys.stdin = old_in
+        msgmod._prefix = ""
+
+
+BASES = [["php", "3", "2"], ["php", "2", "1"], ["parity", "4"], ["op", "3"], ["count", "4", "2"], ["kcolor", "2", "complete", "3"],
+         ["peb", "pyramid", "1"], ["php", "complete", "2", "2"], ["tseitin", "first", "complete", "3"], ["ptn", "5"],
+         ["bphp", "0", "2"], ["php", "x"], ["kcolor", "2", "complete", "0"], ["matching", "complete", "4"], ["ram", "2", "2", "3"]]
+T_OK = [["xor", "2"], ["or", "2"], ["maj", "3"], ["eq", "2"], ["neq", "2"], ["one", "2"], ["ite"], ["lift", "2"], ["flip"],
+        ["none"], ["exact", "3", "1"], ["atleast", "2", "1"], ["atmost", "2", "1"], ["anybut", "2", "1"], ["xor", "1"],
+        ["exact", "2", "3"], ["atleast", "2", "5"], ["lift", "1"], ["maj", "1"], ["maj", "2"], ["or", "1"]]
+T_BAD = [["xor", "0"], ["xor"], ["xor", "2", "3"], ["xor", "x"], ["lift", "0"], ["exact", "3"], ["exact", "0", "1"], ["flip", "1"],
+         ["ite", "2"], [], ["atmost", "2", "-1"], ["eq", "1.5"], ["one", ""], ["anybut", "2"], ["neq", "-1"]]
+
+
+def chain_lines(rng, tier):
+    out = []
+    for b in BASES:
+        for t in T_OK + T_BAD:
+            out.append(b + ["-T"] + t)
+    # two and more steps: tiny formulas and cheap gadgets only (the size is exponential in the clause width)
+    small = [["php", "2", "1"], ["parity", "3"], ["peb", "path", "1"], ["php", "complete", "2", "1"], ["php", "0"]]
+    cheap = [["xor", "2"], ["or", "2"], ["eq", "2"], ["neq", "2"], ["one", "2"], ["ite"], ["lift", "2"], ["flip"], ["none"],
+             ["xor", "1"], ["atleast", "2", "1"], ["maj", "2"], ["exact", "2", "1"], ["anybut", "2", "2"]]
+    tiny = [["flip"], ["none"], ["xor", "1"], ["or", "1"], ["maj", "1"], ["lift", "1"], ["or", "2"], ["one", "1"]]
+    for b in small:
+        for t1 in cheap + T_BAD[:6]:
+            for t2 in cheap + T_BAD[:5]:
+                out.append(b + ["-T"] + t1 + ["-T"] + t2)
+    for _ in range(40 if tier == "quick" else 300):
+        b = rng.choice(small[:3])
+        n = rng.choice([3, 3, 4, 5])
+        line = list(b)
+        for _i in range(n):
+            line += ["-T"] + rng.choice(tiny + T_BAD[:4])
+        out.append(line)
+    # compression with a bipartite graph argument whose left side is / is not the number of variables
+    for b, l in ((["php", "2", "1"], 2), (["parity", "3"], 3), (["php", "2", "2"], 4)):
+        for g in (["complete", str(l), "2"], ["complete", str(l + 1), "2"], ["shift", str(l), "3", "1"], ["complete", "0", "2"],
+                  ["empty", str(l), "2"], ["foo"], []):
+            out.append(b + ["-T", "xorcomp"] + g)
+            out.append(b + ["-T", "majcomp"] + g + ["-T", "flip"])
+    return out
+
+
+def build_chain(info):
+    line = [str(a) for a in info["line"]]
+    memo = {}
+
+    def impl():
+        memo["real"] = run_real_line(line)
+        return memo["real"]
+
+    def oracle():
+        real = memo["real"] if "real" in memo else run_real_line(line)
+        if real.startswith("OK escaped") or real == "OK internalBug" or real.startswith("EXIT"):
+            return {"command_line": ["cnfgen"] + line, "outcome": real[3:]}
+        return None
+    return Case("o_chain", line_req(line), impl, oracle, cls="chain:{}".format(line.count("-T")), nontrivial=True, info=info)
+
+
 def build(suite, info):
     if suite == "o_run":
         return build_run(info)
+    if suite == "o_chain":
+        return build_chain(info)
     if suite != "o_outcome":
         raise ValueError("unknown suite " + suite)
     name, argv = info["name"], [str(a) for a in info["argv"]]
@@ -298,6 +386,17 @@ def cases(ctx):
         out.append(build("o_run", {"cls": 0, "name": n, "argv": a}))
     for n, a in rng.sample(gl, min(len(gl), 400 if tier == "thorough" else 24)):
         out.append(build("o_run", {"cls": 1, "name": n, "argv": a}))
+    # --- o_chain: transformation chains
+    seen, cl = set(), []
+    for line in chain_lines(rng, tier):
+        if tuple(line) not in seen:
+            seen.add(tuple(line))
+            cl.append(line)
+    answers = common.run_driver([line_req(l) for l in cl])
+    cl = [l for l, ans in zip(cl, answers) if ans != "UNSUPPORTED" and len(ans) < 200000]
+    cl = rng.sample(cl, min(len(cl), 110 if tier == "quick" else 1500))
+    for l in cl:
+        out.append(build("o_chain", {"line": l}))
     for c in out:
         c.info.setdefault("seed", seed)
         c.info.setdefault("tier", tier)
@@ -305,7 +404,7 @@ def cases(ctx):
 
 
 def search(ctx, case):
-    if case.suite == "o_run":
+    if case.suite in ("o_run", "o_chain"):
         return case.oracle()
     real = run_real(case.info["name"], [str(a) for a in case.info["argv"]])
     if real.startswith("OK escaped") or real == "OK internalBug":
